@@ -78,9 +78,11 @@ theorem step_conserves (s s' : State) (e : Ev) (h : step s e = .ok s') :
     · rename_i x hx
       split at h
       · cases h
-      · have := check_ok h; subst this
-        simp only [V, sumProcs_set _ _ _ _ hx, contrib]
-        omega
+      · split at h
+        · cases h
+        · have := check_ok h; subst this
+          simp only [V, sumProcs_set _ _ _ _ hx, contrib]
+          omega
   | eat p my cheats =>
     simp only [withProc] at h
     split at h
@@ -96,9 +98,11 @@ theorem step_conserves (s s' : State) (e : Ev) (h : step s e = .ok s') :
     split at h
     · cases h
     · rename_i x hx
-      have := check_ok h; subst this
-      simp only [V, sumProcs_set _ _ _ _ hx, contrib]
-      omega
+      split at h
+      · cases h
+      · have := check_ok h; subst this
+        simp only [V, sumProcs_set _ _ _ _ hx, contrib]
+        omega
   | start p j my cheats =>
     simp only [withProc] at h
     split at h
@@ -106,10 +110,12 @@ theorem step_conserves (s s' : State) (e : Ev) (h : step s e = .ok s') :
     · rename_i x hx
       split at h
       · cases h
-      · have := check_ok h; subst this
-        simp only [V, sumProcs_set _ _ _ _ hx, contrib, freeJobs_cons, jobVal]
-        simp
-        omega
+      · split at h
+        · cases h
+        · have := check_ok h; subst this
+          simp only [V, sumProcs_set _ _ _ _ hx, contrib, freeJobs_cons, jobVal]
+          simp
+          omega
   | childexit p j my cheats =>
     simp only [withProc] at h
     split at h
